@@ -123,10 +123,14 @@ func (m *Thread) Run() {
 	if err != nil {
 		core.LogFatal(m, "Unable to create name for management prefix: ", err)
 	}
-	table.FibStrategyTable.InsertNextHopEnc(faces, m.face.FaceID(), 0)
+	// Management's own prefixes are routes in the RIB rather than bare FIB entries: the RIB rewrites the FIB entry of a
+	// prefix whenever a route on it changes, which would otherwise erase the next hop towards management.
+	table.Rib.AddEncRoute(faces, &table.Route{FaceID: m.face.FaceID(), Origin: table.RouteOriginStatic,
+		Flags: table.RouteFlagChildInherit})
 	if enableLocalhopManagement {
 		add1, _ := enc.NameFromStr("/localhop/nfd")
-		table.FibStrategyTable.InsertNextHopEnc(add1, m.face.FaceID(), 0)
+		table.Rib.AddEncRoute(add1, &table.Route{FaceID: m.face.FaceID(), Origin: table.RouteOriginStatic,
+			Flags: table.RouteFlagChildInherit})
 	}
 	for {
 		fragment, pitToken, inFace := m.transport.Receive()
